@@ -80,9 +80,35 @@ def gen_cases(ctx):
                                 b = relist(rng, kind, a, lb)
                         elif r < 0.6:
                             b = mk(rng, kind, lb, re=a[2])       # same value, other derivatives
+                    elif rng.random() < 0.15:
+                        # COINCIDENCE: bit-for-bit equal (or opposite) values with unrelated derivatives
+                        b = mk(rng, kind, lb, re=a[2] * rng.choice([1.0, 1.0, -1.0]))
                     cases.append((kind, oc, 0, a, b))
                     if la == lb and la:
+                        if rng.random() < 0.5:
+                            b = mk(rng, kind, lb, re=a[2] * rng.choice([1.0, 1.0, -1.0]))
                         cases.append((kind, oc, 1, a, b))
+    # MANY variables (more than a dozen names, two-digit suffixes): orderings that differ between numeric and
+    # lexicographic order, permutations, prefixes, subsets of a long list
+    big = ["v%d" % i for i in range(14)]
+    for _ in range(240 if th else 60):
+        kind = rng.choice([1, 2])
+        oc = rng.randrange(6)
+        la = rng.sample(big, rng.randint(10, 14))
+        r = rng.random()
+        if r < 0.3:
+            lb = list(la)
+            rng.shuffle(lb)
+        elif r < 0.5:
+            lb = la[:rng.randint(1, len(la))]
+        elif r < 0.7:
+            lb = sorted(la)
+        else:
+            lb = rng.sample(big, rng.randint(1, 14))
+        a, b = mk(rng, kind, la), mk(rng, kind, lb)
+        if oc == 5 and rng.random() < 0.5 and set(la) <= set(lb):
+            b = relist(rng, kind, a, lb)
+        cases.append((kind, oc, 0, a, b))
     return cases
 
 
